@@ -750,6 +750,79 @@ def run_faultfree(ctx, rng, spec, root, only=None):
                                 ctx.monitor('faultfree_calls_that_failed')
                                 dest.judge(case, '%s %s (no fault injected; it %s)' % (cmd, arg_in if cmd != 'to_file' else arg_out, failure))
                             shutil.rmtree(work, ignore_errors=True)
+        # two environments in which a call may fail by itself: the library entry called from a worker thread; the command line with
+        # its output stream closed (`p8tool ... >&-`), at normal verbosity
+        import threading
+        from pico8 import util
+        for variant in ('to_file_in_thread', 'stdout_closed:luafmt', 'stdout_closed:luamin', 'stdout_closed:writep8', 'stdout_closed:luafmt_overwrite',
+                        'stdout_closed:build'):
+            for fmt in ('p8', 'png'):
+                for exists in (False, True):
+                    if only is not None:
+                        continue
+                    n += 1
+                    work = os.path.join(root, 'ffenv%d' % n)
+                    os.makedirs(work)
+                    ext = '.p8' if fmt == 'p8' else '.p8.png'
+                    code = carts.varied_lua(rng, 200)
+                    regions, _ = carts.random_regions(rng, 'sparse')
+                    inp = os.path.join(work, 'cart' + ext)
+                    with open(inp, 'wb') as fh:
+                        fh.write(rc.write_p8(regions, code, version=8) if fmt == 'p8' else rc.write_p8png(regions, rc.raw_code_area(code), 8))
+                    cmd = variant.split(':')[-1]
+                    out = {'to_file_in_thread': os.path.join(work, 'saved' + ext), 'luafmt': os.path.join(work, 'cart_fmt' + ext),
+                           'luamin': os.path.join(work, 'cart_fmt' + ext), 'writep8': os.path.join(work, 'cart_fmt.p8'),
+                           'luafmt_overwrite': inp, 'build': os.path.join(work, 'built' + ext)}[cmd]
+                    if cmd == 'luafmt_overwrite' and (fmt != 'p8' or not exists):
+                        shutil.rmtree(work, ignore_errors=True)
+                        continue
+                    if exists and out != inp:
+                        shutil.copy(inp, out) if out.endswith(ext) else open(out, 'wb').write(rc.write_p8(regions, b'old=1\n', version=8))
+                    dest = PlainDest(ctx, out, fmt)
+                    case = {'injector': 'faultfree', 'variant': variant, 'fmt': fmt, 'exists': exists}
+                    failure = None
+                    if variant == 'to_file_in_thread':
+                        g = carts.make_game(regions, code=code, version=8)
+                        box = []
+
+                        def worker():
+                            try:
+                                p8file.to_file(g, out)
+                            except BaseException as e:
+                                box.append(e)
+                        th = threading.Thread(target=worker)
+                        th.start()
+                        th.join(120)
+                        if box:
+                            failure = 'raised %r' % (box[0],)
+                    else:
+                        class Closed:
+                            def write(self, s_):
+                                raise ValueError('I/O operation on closed file')
+
+                            def flush(self):
+                                pass
+                        saved = (util._write_stream, util._verbosity)
+                        argv = {'luafmt': ['luafmt', inp], 'luamin': ['luamin', inp], 'writep8': ['writep8', inp],
+                                'luafmt_overwrite': ['luafmt', '--overwrite', inp], 'build': ['build', out, '--lua', inp]}[cmd]
+                        try:
+                            util._write_stream = Closed()
+                            util.set_verbosity(util.VERBOSITY_NORMAL)
+                            rcode = tool.main(argv)
+                            if rcode not in (0, None):
+                                failure = 'returned %r' % (rcode,)
+                        except BaseException as e:
+                            failure = 'raised %r' % (e,)
+                        finally:
+                            util._write_stream = saved[0]
+                            util._verbosity = saved[1]
+                    ctx.case(repr(sorted(case.items())), nontrivial=True)
+                    ctx.monitor('faultfree_calls')
+                    ctx.feature('faultfree_variant:' + variant.split(':')[0])
+                    if failure is not None:
+                        ctx.monitor('faultfree_calls_that_failed')
+                        dest.judge(case, '%s (no fault injected; it %s)' % (variant, failure))
+                    shutil.rmtree(work, ignore_errors=True)
     finally:
         os.chdir(here)
     ctx.sample({'faultfree': 'luamin / luafmt / writep8 / luafmt --overwrite / build / file.to_file on carts without code, destination spelled bare, '
@@ -792,6 +865,9 @@ def replay(case, ctx):
         fmt, exists, inj = case.get('fmt', 'p8'), case.get('exists', True), case['injector']
         if inj in ('batch_one_cart_fails', 'cli_lua_writer', 'cli_unparseable_output'):
             run_cli_more(ctx, rng, {}, root)      # (the whole small grid: the recorded case is one of its cells)
+            return
+        if inj == 'faultfree' and 'variant' in case:
+            run_faultfree(ctx, rng, {}, root)       # (the whole grid: the recorded variant is part of it)
             return
         if inj == 'faultfree':
             run_faultfree(ctx, rng, {}, root, only=(case['code_kind'], fmt, case['cmd'], case['spelling'], exists))
@@ -854,6 +930,9 @@ def gates(m, tier):
         missed.append('writer exception types %d, stale _fmt bystander %d' % (f.get('writer_exception_types', 0), f.get('stale_fmt_file_next_to_cart', 0)))
     if f.get('cli_first_invocation_fails', 0) < 10:
         missed.append('first-ever invocation on a cart fails: %d' % f.get('cli_first_invocation_fails', 0))
+    if f.get('faultfree_variant:to_file_in_thread', 0) < 4 or f.get('faultfree_variant:stdout_closed', 0) < 10:
+        missed.append('fault-free calls from a worker thread: %d, with the output stream closed: %d' % (
+            f.get('faultfree_variant:to_file_in_thread', 0), f.get('faultfree_variant:stdout_closed', 0)))
     low = [k for k in (['faultfree_code_kind:' + c for c in FF_CODES] + ['faultfree_spelling:' + c for c in FF_SPELLINGS] +
                        ['faultfree_cmd:' + c for c in FF_COMMANDS] + ['faultfree_dest_exists', 'faultfree_dest_absent']) if f.get(k, 0) < 10]
     if low or mon.get('faultfree_calls', 0) < 200:
